@@ -11,6 +11,7 @@ Perturbations are only outcomes a kernel may legally produce:
 """
 import ssl
 import errno
+import ipaddress
 import socket
 import random
 import _socket
@@ -45,6 +46,7 @@ class State:
         self.bytes_sent = 0
         self.bytes_recv = 0
         self.exclude_fds: set = set()
+        self.fail_nonloopback = True
 
     def reset(self) -> None:
         self.short_write_p = 0.0
@@ -134,6 +136,14 @@ def _connect(self: socket.socket, addr: Any) -> None:
     with _lock:
         _count('connect')
         _maybe_fault('connect')
+    if S.fail_nonloopback and isinstance(addr, tuple) and len(addr) >= 2 and isinstance(addr[0], str):
+        try:
+            if not ipaddress.ip_address(addr[0]).is_loopback and not addr[0].startswith('::ffff:127.'):
+                # the sandbox has no network: make the inevitable failure immediate instead of a connect timeout
+                _count('connect:unreachable')
+                raise OSError(errno.ENETUNREACH, 'Network is unreachable (sandbox has no network)')
+        except ValueError:
+            pass
     return _orig_connect(self, addr)
 
 
